@@ -98,7 +98,7 @@ def _child(testdir):
     def _case_from(s, cid, df, kw):
         from decwire import cell
         args = {"phase": kw.get("phase", ""), "ta": cell(kw.get("ta", 25.0)), "vtol": cell(kw.get("vtol", 1e-6)),
-                "itol": cell(kw.get("itol", 1e-6)), "energy": bool(kw.get("energy", False)), "maxiter": int(kw.get("maxiter", 10000))}
+                "itol": cell(kw.get("itol", 1e-6)), "energy": bool(kw.get("energy", False)), "maxiter": int(kw.get("maxiter", 10000)), "probe": False}
         return {"id": cid, "built": True, "st": project(s), "args": args, "kw": {}, "outcome": "ok", "exc": "", "msg": "",
                 "table": drv_solve.table_wire(df), "rail": {"cols": ["none"], "rows": [], "isnone": True},
                 "hasrail": False, "railexc": "", "has_design": False, "design": [], "haswant": False, "want": [], "wantlim": [], "hasedit": False, "edit": {"op": "", "args": {}, "pre": {"comps": [], "sysph": [], "anom": []}}, "has_slice": False,
